@@ -28,6 +28,14 @@ func (a *NilAnalysis) nonNil(fn *ssa.Function, v ssa.Value, f nilFacts) bool {
 				return a.sum[fn].paramNonNil[k]
 			}
 		}
+	case *ssa.Field:
+		// field of a struct value found in a map (comma-ok lookup known to have succeeded) whose
+		// every literal of that struct type sets the field to a non-nil value
+		if ex, ok := x.X.(*ssa.Extract); ok && ex.Index == 0 && f != nil && f["v:"+ex.Name()] {
+			if lk, ok := ex.Tuple.(*ssa.Lookup); ok && lk.CommaOk && a.literalFieldNonNil(x.X.Type(), x.Field) {
+				return true
+			}
+		}
 	case *ssa.FreeVar:
 		return true // address of the captured variable
 	case *ssa.UnOp:
@@ -38,6 +46,36 @@ func (a *NilAnalysis) nonNil(fn *ssa.Function, v ssa.Value, f nilFacts) bool {
 		case *ssa.Global:
 			return a.globN[ad.Name()]
 		case *ssa.FieldAddr:
+			// a local copy of a struct found in a map (v2, ok := m[k]; … v2.f): same as the Field case
+			if al, ok := ad.X.(*ssa.Alloc); ok && f != nil {
+				var whole *ssa.Store
+				n := 0
+				for _, ref := range *al.Referrers() {
+					switch r := ref.(type) {
+					case *ssa.Store:
+						n++
+						if r.Addr == ssa.Value(al) {
+							whole = r
+						}
+					case *ssa.FieldAddr:
+						for _, r2 := range *r.Referrers() {
+							if s2, ok := r2.(*ssa.Store); ok && s2.Addr == ssa.Value(r) {
+								n++ // a field of the copy is reassigned
+							}
+						}
+					case *ssa.UnOp, *ssa.DebugRef:
+					default:
+						n += 2 // the address escapes
+					}
+				}
+				if whole != nil && n == 1 {
+					if ex, ok := whole.Val.(*ssa.Extract); ok && ex.Index == 0 && f["v:"+ex.Name()] {
+						if lk, ok := ex.Tuple.(*ssa.Lookup); ok && lk.CommaOk && a.literalFieldNonNil(ex.Type(), ad.Field) {
+							return true
+						}
+					}
+				}
+			}
 			st := ad.X.Type().Underlying().(*types.Pointer).Elem()
 			if nt, ok := st.(*types.Named); ok {
 				fk := nt.Obj().Name() + "." + fieldName(ad.X.Type(), ad.Field)
@@ -691,4 +729,95 @@ func (a *NilAnalysis) isKeyOf(e ssa.Value, at ssa.Instruction, mk string) bool {
 		}
 	}
 	return false
+}
+
+// literalFieldNonNil: every value of struct type st built anywhere in the library is a composite
+// literal (an Alloc) whose field #idx is stored a non-nil value in the allocating block, and no
+// other store to that field of an st object exists.  Restricted to unnamed struct types and
+// unexported struct types of the library (nothing outside can build one).
+func (a *NilAnalysis) literalFieldNonNil(t types.Type, idx int) bool {
+	st, ok := t.Underlying().(*types.Struct)
+	if !ok || idx >= st.NumFields() {
+		return false
+	}
+	if nt, ok := t.(*types.Named); ok && (nt.Obj().Exported() || nt.Obj().Pkg() == nil || nt.Obj().Pkg().Path() != LibPath) {
+		return false
+	}
+	key := typeStr(t) + "#" + itoa(idx)
+	if a.litF == nil {
+		a.litF = map[string]bool{}
+	}
+	if r, ok := a.litF[key]; ok {
+		return r
+	}
+	a.litF[key] = false
+	allocs := 0
+	fns := append([]*ssa.Function{}, a.p.LibFns...)
+	for _, fn := range fns {
+		for _, b := range fn.Blocks {
+			for _, ins := range b.Instrs {
+				switch x := ins.(type) {
+				case *ssa.Alloc:
+					if !types.Identical(x.Type().(*types.Pointer).Elem(), t) {
+						continue
+					}
+					// a local that only receives whole values is a copy, not a literal
+					isCopy, hasField := false, false
+					for _, ref := range *x.Referrers() {
+						if s0, ok := ref.(*ssa.Store); ok && s0.Addr == ssa.Value(x) {
+							isCopy = true
+						}
+						if fa, ok := ref.(*ssa.FieldAddr); ok {
+							for _, r2 := range *fa.Referrers() {
+								if s2, ok := r2.(*ssa.Store); ok && s2.Addr == ssa.Value(fa) {
+									hasField = true
+								}
+							}
+						}
+					}
+					if isCopy && !hasField {
+						continue
+					}
+					allocs++
+					set := false
+					for _, ref := range *x.Referrers() {
+						fa, ok := ref.(*ssa.FieldAddr)
+						if !ok || fa.Field != idx {
+							continue
+						}
+						for _, r2 := range *fa.Referrers() {
+							s2, ok := r2.(*ssa.Store)
+							if !ok || s2.Addr != ssa.Value(fa) {
+								continue
+							}
+							if s2.Block() != b || !a.nonNil(fn, s2.Val, a.at[s2]) {
+								return false
+							}
+							set = true
+						}
+					}
+					if !set {
+						return false
+					}
+				case *ssa.Store:
+					fa, ok := x.Addr.(*ssa.FieldAddr)
+					if !ok || fa.Field != idx {
+						continue
+					}
+					pt, ok := fa.X.Type().Underlying().(*types.Pointer)
+					if !ok || !types.Identical(pt.Elem(), t) {
+						continue
+					}
+					if _, own := fa.X.(*ssa.Alloc); own {
+						continue // judged with its Alloc
+					}
+					if !a.nonNil(fn, x.Val, a.at[x]) {
+						return false
+					}
+				}
+			}
+		}
+	}
+	a.litF[key] = allocs > 0
+	return allocs > 0
 }
